@@ -369,7 +369,7 @@ func (r *realRepo) test(labels []string, flags string) (bran, tran []string, rep
 		go func() { b, err = cmd.CombinedOutput(); close(done) }()
 		select {
 		case <-done:
-		case <-time.After(180 * time.Second):
+		case <-time.After(300 * time.Second):
 			cmd.Process.Kill()
 			<-done
 			return nil, nil, nil, 124, "timeout"
@@ -1154,6 +1154,11 @@ type result struct {
 }
 type oracleFail struct{ class, detail string }
 
+// infra: the invocation failed for reasons outside plz (harness timeout on a loaded machine, exec failure, signal).
+func infra(rc int, out string) bool {
+	return rc == 124 || rc == -1 || strings.Contains(out, "[exec: ")
+}
+
 func splitHistories(ops []string) [][]string {
 	var hs [][]string
 	for _, op := range ops {
@@ -1281,6 +1286,11 @@ func runHistory(idx int, ops []string, scratch, plz string) ([]result, []oracleF
 				}
 				parts = append(parts, l+"="+rep.res+":"+mode+":"+map[bool]string{true: "stored", false: "none"}[stored])
 			}
+			if infra(rc, out) {
+				// timeout / could not be started / killed by a signal: says nothing about the property and leaves the
+				// repository in an unknown state: the whole history is dropped (counted, see main)
+				return nil, nil, map[string]int{"history-dropped-infrastructure-failure": 1}
+			}
 			if !complete || (rc != 0 && rc != 7) {
 				res = append(res, result{op, fmt.Sprintf("error:%d", rc), false})
 				fail("plz-test-failed-unexpectedly", "plz output: "+strings.ReplaceAll(out, "\n", " | "))
@@ -1305,7 +1315,9 @@ func runHistory(idx int, ops []string, scratch, plz string) ([]result, []oracleF
 				if rep.cached && rep.res != "pass" {
 					fail("failing-result-reported-as-cached", l+" reported "+rep.res+" [cached] at: "+op)
 				}
-				if rep.cached && lastRes[l] != "pass" && (!cacheMode || (lastRes[l] != "" && !lastEditedSince[l])) {
+				// (with the artifact cache these two only follow from injectivity of the runtime hash — an older passing
+				// tree whose hash collides is restored — so there the fresh-run comparison below decides and classifies)
+				if rep.cached && lastRes[l] != "pass" && !cacheMode {
 					fail("failing-result-reused", l+" reported cached although its previous run was '"+lastRes[l]+"' at: "+op)
 				}
 				if rep.cached && executed[l] > 0 {
@@ -1314,7 +1326,7 @@ func runHistory(idx int, ops []string, scratch, plz string) ([]result, []oracleF
 				if !rep.cached && executed[l] == 0 {
 					fail("fresh-report-but-not-executed", l+" at: "+op)
 				}
-				if lastRes[l] != "" && lastRes[l] != "pass" && executed[l] == 0 && (!cacheMode || !lastEditedSince[l]) {
+				if lastRes[l] != "" && lastRes[l] != "pass" && executed[l] == 0 && !cacheMode {
 					fail("failing-test-not-executed-again", l+" did not pass before and was not executed at: "+op)
 				}
 				if rep.cached && !haveStored[l] {
@@ -1406,6 +1418,9 @@ func runHistory(idx int, ops []string, scratch, plz string) ([]result, []oracleF
 				}
 				parts = append(parts, l+"="+rep.res)
 			}
+			if infra(rc, out) {
+				return nil, nil, map[string]int{"history-dropped-infrastructure-failure": 1}
+			}
 			if !complete || (rc != 0 && rc != 7) {
 				res = append(res, result{op, fmt.Sprintf("error:%d", rc), false})
 				fail("fresh-plz-test-failed-unexpectedly", "plz output: "+strings.ReplaceAll(out, "\n", " | "))
@@ -1464,7 +1479,7 @@ func main() {
 		ops = rp
 	} else {
 		g := &gen{r: r.Rng}
-		nh := r.N(20, 300)
+		nh := r.N(20, 160)
 		for i := 0; i < nh; i++ {
 			ops = append(ops, g.history(r, 4+r.Rng.Intn(3))...)
 		}
@@ -1491,6 +1506,14 @@ func main() {
 		}(i)
 	}
 	wg.Wait()
+	dropped := 0
+	for _, h := range out {
+		dropped += h.counts["history-dropped-infrastructure-failure"]
+	}
+	if dropped*2 > len(hs) {
+		r.OracleFail("plz-infrastructure-failures", strings.Join(hs[0], "\n"),
+			fmt.Sprintf("%d of %d histories dropped: plz could not be run (timeouts / exec failures)", dropped, len(hs)))
+	}
 	for i, h := range out {
 		for _, x := range h.res {
 			r.Emit(x.op, x.out, x.nontrivial)
